@@ -131,8 +131,9 @@ class State:
 
 
 class Leaf:
-    def __init__(self, state, ret):
-        self.cond, self.ret, self.ext, self.trace, self.known, self.state = state.cond, ret, state.ext, state.trace, state.known, state
+    def __init__(self, state, ret, eng=None):
+        cond = state.cond
+        self.cond, self.ret, self.ext, self.trace, self.known, self.state = cond, ret, state.ext, state.trace, state.known, state
 
     def __repr__(self):
         return f"Leaf(cond={self.cond}, ret={self.ret})"
@@ -242,6 +243,8 @@ class Engine:
     def __init__(self, P, opaque=(), inline_depth=6, max_states=60000, subst=None, models=None, inline_extern=(), loops="fail"):
         self.P = P
         self.loops = loops          # "fail": a back edge raises NotTabulable; "havoc": generic-iteration abstraction
+        self.trace_calls = set()    # opaque callees whose calls are recorded (in order) in the path trace
+        self.mod_summaries = {}     # opaque callee -> (index of the &mut argument, pointee ADT, fields it may modify)
         self.opaque = set(opaque)
         self.inline_depth = inline_depth
         self.max_states = max_states
@@ -390,9 +393,7 @@ class Engine:
                 return ("refv", self.freeze(state, get_path(loc[1], loc[2]), seen))
             if loc[0] == "local":
                 return ("refv", self.freeze(state, self.read_loc(state, loc), seen | {loc}))
-            if loc[1] in state.ext:
-                return ("refv", self.freeze(state, self.read_loc(state, loc), seen | {loc}))
-            return t
+            return ("refv", self.freeze(state, self.read_loc(state, loc), seen | {loc}))
         return tuple(self.freeze(state, x, seen) if isinstance(x, tuple) else x for x in t)
 
     def operand(self, state, frame, o):
@@ -658,6 +659,8 @@ class Engine:
                 state = saved
         self.apps.add(key)
         app = ("app", fn_args if isinstance(fn_args, str) and fn_args else key, tuple(args))
+        if key in self.trace_calls:
+            state.trace.append(("call", key, tuple(self.freeze(state, x) for x in args)))
         # a callee that receives `&mut` may write through it: forget what is known about the pointee
         if term is not None:
             frozen = None
@@ -667,6 +670,16 @@ class Engine:
                     if frozen is None:
                         frozen = tuple(self.freeze(state, x) for x in args)
                         app = ("app", app[1], frozen)
+                    summ = self.mod_summaries.get(key)
+                    if summ is not None and summ[0] == i:
+                        # frame rule from the callee's own effect summary: only these fields of the pointee change
+                        adt = self.P.adts.get(summ[1])
+                        names = [f["name"] for f in adt["variants"][0]["fields"]] if adt else []
+                        loc = args[i][1]
+                        for fname in summ[2]:
+                            if fname in names:
+                                self.write_loc(state, loc[:-1] + (loc[-1] + (("f", names.index(fname), fname, None),),), ("mutated", key, frozen, i, fname))
+                        continue
                     self.write_loc(state, args[i][1], ("mutated", key, frozen, i))
         return [(state, app)]
 
@@ -756,7 +769,7 @@ class Engine:
                         out.append((st, ("panic", "assert:" + t["m"]["k"], t.get("sp", ""))))
                         continue
                 elif c[0] != "rtc":
-                    st.cond.append((("assert", t["m"]["k"] + (":" + t["m"]["op"] if "op" in t["m"] else ""), c), exp))
+                    st.cond.append((("assert", t["m"]["k"] + (":" + t["m"]["op"] if "op" in t["m"] else ""), self.freeze(st, c)), exp))
                 work.append((st, t["t"], seen))
             elif k == "drop":
                 work.append((st, t["t"], seen))
@@ -818,7 +831,8 @@ class Engine:
                 lbl = name if name is not None else tv
                 covered.add(lbl)
                 s2.known[x] = lbl
-                s2.cond.append((("discr", x), lbl))
+                s2.known[self.freeze(s2, x)] = lbl
+                s2.cond.append((("discr", self.freeze(s2, x)), lbl))
                 out.append((s2, b))
             if variants:
                 rest = [nm for nm, _, _ in variants if nm not in covered]
@@ -827,11 +841,12 @@ class Engine:
                 for nm in rest:
                     s2 = st.fork()
                     s2.known[x] = nm
-                    s2.cond.append((("discr", x), nm))
+                    s2.known[self.freeze(s2, x)] = nm
+                    s2.cond.append((("discr", self.freeze(s2, x)), nm))
                     out.append((s2, other))
             else:
                 s2 = st.fork()
-                s2.cond.append((("discr", x), ("not", tuple(sorted(map(str, covered))))))
+                s2.cond.append((("discr", self.freeze(s2, x)), ("not", tuple(sorted(map(str, covered))))))
                 out.append((s2, other))
             return out
         # opaque integer / bool term
@@ -848,19 +863,19 @@ class Engine:
                 continue
             s2 = st.fork()
             s2.vals[d] = tv
-            s2.cond.append((d, tv))
+            s2.cond.append((self.freeze(s2, d), tv))
             out.append((s2, b))
         if ty == "bool" and len(targets) == 1:
             other_v = 1 - targets[0][0]
             if other_v not in excluded:
                 s2 = st.fork()
                 s2.vals[d] = other_v
-                s2.cond.append((d, other_v))
+                s2.cond.append((self.freeze(s2, d), other_v))
                 out.append((s2, other))
         elif not self.block_unreachable(fr.body, other):
             s2 = st.fork()
             s2.neq.setdefault(d, set()).update(tv for tv, _ in targets)
-            s2.cond.append((d, ("not", tuple(tv for tv, _ in targets))))
+            s2.cond.append((self.freeze(s2, d), ("not", tuple(tv for tv, _ in targets))))
             out.append((s2, other))
         return out
 
@@ -881,7 +896,7 @@ class Engine:
                 l = body["locals"][i + 1]
                 args.append(("param", i, l.get("n", f"arg{i}")))
         leaves = self.run_body(st, key, body, list(args), 0)
-        out = [Leaf(s, self.freeze(s, r)) for s, r in leaves]
+        out = [Leaf(s, self.freeze(s, r), self) for s, r in leaves]
         return out if keep_panics else [l for l in out if l.ret[0] != "panic"]
 
     def region(self, key, start, stops=()):
@@ -896,7 +911,7 @@ class Engine:
             res = self.run_body(st, key, body, args, 0, start=start, stops=set(stops), init_locals=True)
         finally:
             self.loops = saved
-        return [Leaf(s, self.freeze(s, r)) for s, r in res]
+        return [Leaf(s, self.freeze(s, r), self) for s, r in res]
 
     def paths(self, key, args=None):
         """(returns, loopbacks, panics) of `key` under the generic-iteration abstraction of its loops."""
@@ -924,7 +939,7 @@ def compose(eng, keys, args=None):
                 continue
             nxt.extend(eng.run_body(s, k, b, [r], 0))
         cur = nxt
-    return [Leaf(s, eng.freeze(s, r)) for s, r in cur if r[0] != "panic"]
+    return [Leaf(s, eng.freeze(s, r), eng) for s, r in cur if r[0] != "panic"]
 
 
 def is_recon(P, ret, x, known):
@@ -1145,7 +1160,17 @@ def m_option_is(which):
         o = eng.deref_value(st, args[0])
         if o[0] == "adt" and o[2] in ("Some", "None"):
             return [(st, mk_bool(o[2] == which))]
-        return [(st, ("is_" + which.lower(), o))]
+        if o in st.known:
+            return [(st, mk_bool(st.known[o] == which))]
+        out = []
+        for v in ("Some", "None"):
+            s = st.fork()
+            s.known[o] = v
+            fo = eng.freeze(s, o)
+            s.known[fo] = v
+            s.cond.append((("discr", fo), v))
+            out.append((s, mk_bool(v == which)))
+        return out
     return m
 
 
@@ -1171,17 +1196,19 @@ def m_try_branch(eng, st, args, info):
         return [(st, ("adt", CF, "Break", (("adt", "core::result::Result", "Err", (v[3][0],)),)))]
     if info["fn_args"] and "core::option::Option<" in str(info["fn_args"]).split(" as ")[0]:
         s1, s2 = st.fork(), st.fork()
-        s1.known[v] = "Some"
-        s1.cond.append((("discr", v), "Some"))
-        s2.known[v] = "None"
-        s2.cond.append((("discr", v), "None"))
+        fv = eng.freeze(st, v)
+        s1.known[v] = s1.known[fv] = "Some"
+        s1.cond.append((("discr", fv), "Some"))
+        s2.known[v] = s2.known[fv] = "None"
+        s2.cond.append((("discr", fv), "None"))
         return [(s1, ("adt", CF, "Continue", (("vfield", v, "Some", 0),))), (s2, ("adt", CF, "Break", (OPT_NONE,)))]
     if info["fn_args"] and "core::result::Result<" in str(info["fn_args"]).split(" as ")[0]:
         s1, s2 = st.fork(), st.fork()
-        s1.known[v] = "Ok"
-        s1.cond.append((("discr", v), "Ok"))
-        s2.known[v] = "Err"
-        s2.cond.append((("discr", v), "Err"))
+        fv = eng.freeze(st, v)
+        s1.known[v] = s1.known[fv] = "Ok"
+        s1.cond.append((("discr", fv), "Ok"))
+        s2.known[v] = s2.known[fv] = "Err"
+        s2.cond.append((("discr", fv), "Err"))
         return [(s1, ("adt", CF, "Continue", (("vfield", v, "Ok", 0),))),
                 (s2, ("adt", CF, "Break", (("adt", "core::result::Result", "Err", (("vfield", v, "Err", 0),)),)))]
     return [(st, ("try_branch", v))]
@@ -1722,3 +1749,74 @@ def emitted_text(trace):
         else:
             return None
     return "".join(out)
+
+
+def predicate_table(leaves, classify):
+    """Evaluate a decision table over named boolean predicates.
+    classify(term, value) -> (name, truth) for a path condition, or None if the condition is not one of the predicates
+    (the caller decides whether that is tolerable).  Returns ({assignment tuple: set(ret)}, names, unknown conditions)."""
+    import itertools
+    names, unknown = [], []
+    rows = []
+    for lf in leaves:
+        req = {}
+        for t, v in lf.cond:
+            c = classify(t, v)
+            if c is None:
+                unknown.append((t, v))
+                continue
+            if c[0] == "__true__":
+                continue
+            if c[0] not in names:
+                names.append(c[0])
+            req[c[0]] = c[1]
+        rows.append((req, lf.ret))
+    table = {}
+    for vals in itertools.product((True, False), repeat=len(names)):
+        asg = dict(zip(names, vals))
+        table[vals] = {ret for req, ret in rows if all(asg[k] == v for k, v in req.items())}
+    return table, names, unknown
+
+
+def threshold(term, value):
+    """`x >= K` style comparisons with a constant: returns (x, K, truth of x >= K) or None."""
+    if term[0] != "bin" or term[1] not in ("Ge", "Lt", "Gt", "Le"):
+        return None
+    op, a, b = term[1], term[2], term[3]
+    if is_const(b) and not is_const(a):
+        x, k = a, b[1]
+    elif is_const(a) and not is_const(b):
+        # K op x  ->  x op' K
+        x, k = b, a[1]
+        op = {"Ge": "Le", "Le": "Ge", "Gt": "Lt", "Lt": "Gt"}[op]
+    else:
+        return None
+    truth = bool(value)
+    if op == "Ge":
+        return x, k, truth
+    if op == "Lt":
+        return x, k, not truth
+    if op == "Gt":
+        return x, k + 1, truth
+    return x, k + 1, not truth   # Le
+
+
+def mod_fields(P, key, arg_index=0, opaque=()):
+    """Top-level fields of the object behind parameter `arg_index` that `key` may modify, from its own K4 effect summary
+    (all return paths and generic loop iterations)."""
+    eng = Engine(P, opaque=set(opaque))
+    rets, loops, _ = eng.paths(key)
+    body = P.body(key)
+    prm = ("param", arg_index, body["locals"][arg_index + 1].get("n", f"arg{arg_index}"))
+    out = set()
+    for lf in rets + loops:
+        v = lf.ext.get(prm)
+        while v is not None and isinstance(v, tuple) and v and v[0] in ("upd", "mutated"):
+            if v[0] == "mutated":
+                return None     # an opaque callee had the whole object: no frame information
+            path = v[2]
+            if not path or path[0][0] != "f":
+                return None
+            out.add(path[0][2])
+            v = v[1]
+    return out
